@@ -320,8 +320,7 @@ class World:
     def turn(self):
         for d in (0, 1):
             self.cur_ops[d].append(("T",))
-        if E.clock.getDelayedCalls():
-            E.clock.advance(0)
+        one_turn()
 
     # -- observation ---------------------------------------------------
     def observe(self, d):
@@ -363,12 +362,26 @@ class World:
                 if self.pending_gifts(d):
                     self.gift(d, 0, True)
                     moved = True
-            if E.clock.getDelayedCalls():
+            if turn_pending():
                 self.turn()
                 moved = True
             if not moved:
                 return
         raise RuntimeError("no quiescence")
+
+
+def turn_pending():
+    q = E.ev._theSimpleQueue
+    return q._timer is not None and q._timer.active()
+
+
+def one_turn():
+    """exactly one batch of foolscap's eventual-send queue (task.Clock.advance(0) would also run the batches that
+    are scheduled meanwhile; a real reactor runs those in later iterations, with I/O in between)"""
+    q = E.ev._theSimpleQueue
+    if turn_pending():
+        q._timer.cancel()
+        q._turn()
 
 
 THIRD_TUBID = "t" * 32
@@ -433,6 +446,6 @@ def run_local(ops):
             if o == "I":
                 lr.callRemote("m", n)
                 n += 1
-            elif E.clock.getDelayedCalls():
-                E.clock.advance(0)
+            else:
+                one_turn()
         return list(t.entered)
